@@ -89,6 +89,24 @@ mod verif_search {
             }
             prev = Some((a, up));
         }
+        // every constructor gives the same verdict as `new`, for lengths 0..=40 (too long beyond 16), bad characters at any position
+        {
+            use core::convert::TryFrom;
+            fn verdict(r: &Result<NormalizedString, NormalizedStringError>) -> String { match r { Ok(v) => format!("Ok({})", v.as_ref()), Err(e) => format!("Err({:?})", e) } }
+            for len in 0..=40usize { for variant in 0..6 {
+                let mut bytes: Vec<u8> = (0..len).map(|_| 0x20 + (rng.next() % 0x5f) as u8).collect();
+                if variant >= 4 && len > 0 { let pos = (rng.next() as usize) % len; bytes[pos] = if variant == 4 { 0x1f } else { 0x7f }; }
+                let mut s = String::from_utf8(bytes).unwrap();
+                if variant == 3 && len > 0 { s.push('é'); }
+                n += 1;
+                let want = verdict(&NormalizedString::new(&s));
+                if s.len() > 16 && !want.starts_with("Err") { println!("REPLAY-FAIL c13_display_hash new accepted the {}-byte string {:?}", s.len(), s); return; }
+                for (name, got) in [("from_string", verdict(&NormalizedString::from_string(s.clone()))), ("from_str", verdict(&NormalizedString::from_str(&s))),
+                                    ("TryFrom<String>", verdict(&NormalizedString::try_from(s.clone()))), ("TryFrom<&str>", verdict(&NormalizedString::try_from(s.as_str())))] {
+                    if got != want { println!("REPLAY-FAIL c13_display_hash {} gives {} where new gives {} for {:?} ({} bytes)", name, got, want, s, s.len()); return; }
+                }
+            } }
+        }
         println!("REPLAY-STATS c13_display_hash inputs={} all-ok", n);
     }
 }
